@@ -20,7 +20,8 @@ def gen(rng, static=True):
     types = []
     for _ in range(rng.randint(2, 7)):
         t = g.gen(1)
-        if t not in types:
+        # equal types are one registration (Exactly[A] written twice is one type since the fix for D22)
+        if w.tyj(t) not in [w.tyj(x) for x in types]:
             types.append(t)
     rng.shuffle(types)
     queries = [["cls", c] for c in range(w.n)]
